@@ -118,8 +118,11 @@ def _write_ds9(regions, filename, *, precision=8, overwrite=False):
         raise OSError(f'{filename} already exists')
 
     output = _serialize_ds9(regions, precision=precision)
-    with open(filename, 'w') as fh:
-        fh.write(output)
+    # encode first: text that cannot be encoded must fail before the
+    # destination is created or truncated
+    data = output.encode()
+    with open(filename, 'wb') as fh:
+        fh.write(data)
 
 
 def _get_region_shape(region):
